@@ -48,8 +48,8 @@ Pick(t) ==
   /\ cur' = t /\ ld' = 0 /\ UNCHANGED <<proj, used, usage, lim, lsec, pc>>
 
 RECURSIVE FirstFromF(_, _), FirstFromB(_, _)
-FirstFromF(t, s) == IF s >= P.N THEN -1 ELSE IF Bookable(t, s) THEN s ELSE FirstFromF(t, s + 1)
-FirstFromB(t, s) == IF s < 0 THEN -1 ELSE IF Bookable(t, s) THEN s ELSE FirstFromB(t, s - 1)
+FirstFromF(t, s) == IF s >= P.N THEN -1 ELSE IF BookableC(t, s) THEN s ELSE FirstFromF(t, s + 1)
+FirstFromB(t, s) == IF s < 0 THEN -1 ELSE IF BookableC(t, s) THEN s ELSE FirstFromB(t, s - 1)
 FirstFrom(t) == IF Fwd(t) THEN FirstFromF(t, ts[t].cur) ELSE FirstFromB(t, ts[t].cur)
 
 \* one slot of work: book every member, credit once, finish if the effort is reached
